@@ -151,10 +151,11 @@ def make_jobs(ctx, njobs):
         bits, ch = combos[k % len(combos)]
         n = LENGTHS[k % len(LENGTHS)] if rng.random() < 0.8 else rng.randrange(0, 9000)
         directed = None
-        if k < 3:
+        if k < 4:
             # directed: whole packets whose BER bytes fill the pakt chunk exactly (no padding, so the table has no extra zero entry and
             # frames = entries * 4096): 2 x 2 bytes, 4 x 1 byte (all-zero packets are a few bytes), 4 x 3 bytes
-            bits, ch, n, directed = [(16, 1, 2 * FPB, "quiet"), (24, 1, 4 * FPB, "zero"), (16, 2, 4 * FPB, "noise")][k]
+            bits, ch, n, directed = [(16, 1, 2 * FPB, "quiet"), (24, 1, 4 * FPB, "zero"), (16, 2, 4 * FPB, "noise"),
+                                      (32, 2, FPB - 1, "noise")][k]       # an uncompressed packet of 32768 bytes: BER 82 80 00, the entry ends in a zero byte
         if n * ch > 34000:
             n = rng.choice([0, 1, 2, 100, FPB - 1, FPB, FPB + 1]) if ch <= 8 else 100
         cont = CONTENTS[(k // 3) % len(CONTENTS)] if rng.random() < 0.7 else rng.choice(CONTENTS)
@@ -238,7 +239,14 @@ class FileView:
         self.priming = int.from_bytes(self.pakt[16:20], "big")
         self.remainder = int.from_bytes(self.pakt[20:24], "big")
         body = self.pakt[24:]
-        self.sizes = [v for v in ber_list(body.rstrip(b"\0"))] if body.rstrip(b"\0") else []
+        # every BER entry of the body; the zero bytes psf_save_write_chunk pads with (at most three) decode as zero entries at the end
+        # (a zero byte that ENDS a multi-byte entry, e.g. 256 = 82 00 or 32768 = 82 80 00, belongs to that entry)
+        ent = ber_list(body)
+        k = 0
+        while ent and ent[-1] == 0 and k < 3:
+            ent.pop()
+            k += 1
+        self.sizes = ent
         self.ok = True
 
     def packet_bytes(self):
